@@ -204,7 +204,7 @@ Lemma clear_touching_wf c qubits idxs c' r : clear_touching c qubits idxs = (c',
 Proof.
   unfold clear_touching. intros H Hw. injection H as <- <-. simpl.
   revert Hw. generalize (moms c). induction idxs as [|k r IH]; intros ms Hw; simpl; [exact Hw|].
-  apply IH. destruct (_ && _); [|exact Hw]. destruct (nth_error ms _) as [m|] eqn:En; [|exact Hw].
+  apply IH. unfold clear_step. destruct (_ && _); [|exact Hw]. destruct (nth_error ms _) as [m|] eqn:En; [|exact Hw].
   apply Forall_replace_nth; [|exact Hw]. apply filter_moment_wf. eapply Forall_nth_error; eassumption.
 Qed.
 
@@ -342,4 +342,223 @@ Proof.
     destruct (H2 ltac:(lia)) as [m [Hn Ho]]. rewrite Hn in H.
     unfold with_operation in H. rewrite Ho in H.
     eapply IH; [|exact H]. rewrite replace_nth_length. exact He.
+Qed.
+
+(* ==== conservation of operations for the other mutators (counts of every uid) ==== *)
+Lemma skipn_skipn_ {A} (x y : nat) (l : list A) : skipn x (skipn y l) = skipn (x + y) l.
+Proof.
+  revert l. induction y as [|y IH]; intros l; [rewrite Nat.add_0_r; reflexivity|].
+  destruct l as [|a r]; [rewrite !skipn_nil; reflexivity|]. rewrite Nat.add_succ_r. simpl. apply IH.
+Qed.
+
+Lemma ccnt_splice u s e xs l : (s <= e)%nat ->
+  (ccnt u (splice s e xs l) + ccnt u (firstn (e - s) (skipn s l)) = ccnt u xs + ccnt u l)%nat.
+Proof.
+  intros Hse. unfold splice. rewrite !ccnt_app.
+  assert (Hl : ccnt u l = (ccnt u (firstn s l) + (ccnt u (firstn (e - s) (skipn s l)) + ccnt u (skipn e l)))%nat).
+  { rewrite <- (firstn_skipn s l) at 1. rewrite ccnt_app. f_equal.
+    rewrite <- (firstn_skipn (e - s) (skipn s l)) at 1. rewrite ccnt_app. f_equal.
+    rewrite skipn_skipn_. replace (e - s + s)%nat with e by lia. reflexivity. }
+  lia.
+Qed.
+
+Lemma slice_range_le a b n s e : slice_range a b n = (s, e) -> (s <= e)%nat.
+Proof. unfold slice_range. intros H. injection H as <- <-. lia. Qed.
+
+Theorem setitem_cnt u c i m c' z j old :
+  setitem c i m = (c', inl z) -> py_index i (length (moms c)) = Some j -> nth_error (moms c) j = Some old ->
+  (ccnt u (moms c') + cnt u old = cnt u m + ccnt u (moms c))%nat.
+Proof.
+  unfold setitem. intros H Hj Hn. rewrite Hj in H. injection H as <- _. simpl. apply ccnt_replace_nth. exact Hn.
+Qed.
+
+Theorem delitem_cnt u c i c' z j old :
+  delitem c i = (c', inl z) -> py_index i (length (moms c)) = Some j -> nth_error (moms c) j = Some old ->
+  (ccnt u (moms c') + cnt u old = ccnt u (moms c))%nat.
+Proof.
+  unfold delitem. intros H Hj Hn. rewrite Hj in H. injection H as <- _. simpl. apply ccnt_remove_nth. exact Hn.
+Qed.
+
+Theorem setslice_cnt u c a b ms c' z s e :
+  setslice c a b ms = (c', inl z) -> slice_range a b (length (moms c)) = (s, e) ->
+  (ccnt u (moms c') + ccnt u (firstn (e - s) (skipn s (moms c))) = ccnt u ms + ccnt u (moms c))%nat.
+Proof.
+  unfold setslice. intros H Hr. rewrite Hr in H. injection H as <- _. simpl. apply ccnt_splice.
+  eapply slice_range_le. exact Hr.
+Qed.
+
+Lemma ccnt_repeat_list u n ms : ccnt u (repeat_list n ms) = (n * ccnt u ms)%nat.
+Proof. induction n as [|n IH]; simpl; [reflexivity|]. rewrite ccnt_app, IH. reflexivity. Qed.
+
+Theorem mul_cnt u c n : ccnt u (moms (mul c n)) = (Z.to_nat n * ccnt u (moms c))%nat.
+Proof. unfold mul. simpl. apply ccnt_repeat_list. Qed.
+Theorem imul_cnt u c n : ccnt u (moms (imul c n)) = (Z.to_nat n * ccnt u (moms c))%nat.
+Proof. unfold imul. simpl. apply ccnt_repeat_list. Qed.
+
+Lemma cnt_inv_op u m : cnt (- u) (map inv_op m) = cnt u m.
+Proof.
+  unfold cnt. induction m as [|o r IH]; simpl; [reflexivity|].
+  destruct (Z.eqb_spec (- uid o) (- u)) as [E|E]; destruct (Z.eqb_spec (uid o) u) as [E'|E']; simpl; try lia; rewrite IH; reflexivity.
+Qed.
+Lemma ccnt_rev u ms : ccnt u (rev ms) = ccnt u ms.
+Proof. induction ms as [|m r IH]; simpl; [reflexivity|]. rewrite ccnt_app, ccnt_cons, ccnt_cons, ccnt_nil, IH. lia. Qed.
+Theorem inverse_cnt u c c' z : inverse c = (c', inl z) -> ccnt (- u) (moms c') = ccnt u (moms c).
+Proof.
+  unfold inverse. intros H. destruct (forallb _ _); [|discriminate]. injection H as <- _. simpl.
+  rewrite ccnt_rev. induction (moms c) as [|m r IH]; simpl; [reflexivity|].
+  rewrite !ccnt_cons, IH, cnt_inv_op. reflexivity.
+Qed.
+
+Theorem add_cnt u c its c' z : add c its = (c', inl z) -> ccnt u (moms c') = (ccnt u (moms c) + icnt u its)%nat.
+Proof.
+  unfold add, append. intros H. destruct (insert_cnt u _ _ _ _ _ _ H) as [_ [_ H3]]. apply H3. reflexivity.
+Qed.
+Theorem radd_cnt u c its c' z : radd c its = (c', inl z) -> ccnt u (moms c') = (icnt u its + ccnt u (moms c))%nat.
+Proof.
+  unfold radd. intros H. destruct (construct its EARLIEST) as [c1 [z1|e1]] eqn:E; [|discriminate]. injection H as <- _.
+  simpl. rewrite ccnt_app. destruct (construct_cnt u _ _ _ _ E) as [_ [_ H3]]. specialize (H3 eq_refl).
+  rewrite ccnt_nil in H3. simpl in H3. lia.
+Qed.
+
+Lemma range_loop_cnt u ops : forall ms i e ms' rest,
+  range_loop ms i e ops = (ms', rest, None) -> (ccnt u ms' + cnt u rest = ccnt u ms + cnt u ops)%nat.
+Proof.
+  induction ops as [|o r IH]; intros ms i e ms' rest H; simpl in H.
+  - injection H as <- <-. lia.
+  - destruct (Nat.leb e _); [injection H as <- <-; lia|].
+    destruct (nth_error ms _) as [m|] eqn:En; [|discriminate].
+    destruct (with_operation m o) as [m'|] eqn:Ew; [|discriminate].
+    apply IH in H. apply with_operation_eq in Ew. subst m'.
+    pose proof (ccnt_replace_nth u _ (m ++ [o]) m ms En) as Hc. rewrite cnt_app in Hc.
+    rewrite cnt_cons. rewrite cnt_cons, cnt_nil in Hc. lia.
+Qed.
+
+Lemma icnt_map_IOp u ops : icnt u (map IOp ops) = cnt u ops.
+Proof. unfold icnt, items_ops. induction ops as [|o r IH]; simpl; [reflexivity|]. rewrite !cnt_cons. unfold cnt in *. simpl in IH. rewrite IH. reflexivity. Qed.
+
+Theorem insert_into_range_cnt u c its s e c' z :
+  insert_into_range c its s e = (c', inl z) -> ccnt u (moms c') = (ccnt u (moms c) + icnt u its)%nat.
+Proof.
+  unfold insert_into_range. intros H. destruct (_ && _); [|discriminate].
+  destruct (range_loop _ _ _ _) as [[ms rest] [er|]] eqn:E; [discriminate|].
+  apply (range_loop_cnt u) in E. fold (icnt u its) in E.
+  destruct rest as [|o rest]; [injection H as <- _; simpl; rewrite cnt_nil in E; lia|].
+  destruct (insert_cnt u _ _ _ _ _ _ H) as [_ [_ H3]]. specialize (H3 eq_refl).
+  rewrite icnt_map_IOp in H3. cbn [moms mutated] in H3. lia.
+Qed.
+
+Lemma batch_insert_into_loop_cnt u rs : forall ms ms',
+  batch_insert_into_loop ms rs = inl ms' -> ccnt u ms' = (ccnt u ms + cnt u (flat_map snd rs))%nat.
+Proof.
+  induction rs as [|[i ops] r IH]; intros ms ms' H; simpl in H.
+  - injection H as <-. simpl. rewrite cnt_nil. lia.
+  - destruct (py_index i (length ms)) as [j|]; [|discriminate].
+    destruct (nth_error ms j) as [m|] eqn:En; [|discriminate].
+    destruct (with_operations m ops) as [m'|] eqn:Em; [|discriminate].
+    apply IH in H. apply with_operations_eq in Em. subst m'.
+    pose proof (ccnt_replace_nth u j (m ++ ops) m ms En) as Hc. rewrite cnt_app in Hc.
+    simpl. rewrite cnt_app. lia.
+Qed.
+
+Lemma cnt_filter_le u f m : (cnt u (filter f m) <= cnt u m)%nat.
+Proof. unfold cnt. induction m as [|o r IH]; simpl; [lia|]. destruct (f o); simpl; destruct (Z.eqb (uid o) u); simpl; lia. Qed.
+
+Lemma cnt_filter_other u o m : uid o <> u -> cnt u (filter (fun old => negb (op_eqb o old)) m) = cnt u m.
+Proof.
+  intros Hne. unfold cnt, op_eqb. induction m as [|x r IH]; simpl; [reflexivity|].
+  destruct (Z.eqb_spec (uid o) (uid x)) as [E|E]; simpl.
+  - destruct (Z.eqb_spec (uid x) u) as [E'|E']; [congruence|exact IH].
+  - destruct (Z.eqb (uid x) u); simpl; rewrite IH; reflexivity.
+Qed.
+
+(* batch_remove: nothing is invented, and only operations equal to a listed one disappear *)
+Lemma batch_remove_loop_cnt u rs : forall ms ms',
+  batch_remove_loop ms rs = inl ms' ->
+  (ccnt u ms' <= ccnt u ms)%nat /\ (Forall (fun r => uid (snd r) <> u) rs -> ccnt u ms' = ccnt u ms).
+Proof.
+  induction rs as [|[i o] r IH]; intros ms ms' H; cbn [batch_remove_loop] in H.
+  - injection H as <-. split; [lia|reflexivity].
+  - destruct (py_index i (length ms)) as [j|]; [|discriminate].
+    destruct (nth_error ms j) as [m|] eqn:En; [|discriminate].
+    destruct (has_op m o); [|discriminate].
+    destruct (IH _ _ H) as [H1 H2].
+    pose proof (ccnt_replace_nth u j (filter (fun old => negb (op_eqb o old)) m) m ms En) as Hc.
+    pose proof (cnt_filter_le u (fun old => negb (op_eqb o old)) m) as Hf.
+    match type of H1 with (_ <= ?R)%nat => change (R + cnt u m = cnt u (filter (fun old => negb (op_eqb o old)) m) + ccnt u ms)%nat in Hc;
+                                            remember R as R0 eqn:HR0 end. clear HR0 H.
+    split; [lia|]. intros Hall. inversion Hall as [|? ? Hx Hr]; subst. simpl in Hx.
+    rewrite (H2 Hr). rewrite (cnt_filter_other u o m Hx) in Hc. lia.
+Qed.
+
+Lemma clear_fold_cnt u qubits idxs : forall ms, (ccnt u (fold_left (clear_step qubits) idxs ms) <= ccnt u ms)%nat.
+Proof.
+  induction idxs as [|k r IH]; intros ms; simpl; [lia|].
+  eapply Nat.le_trans; [apply IH|]. unfold clear_step. destruct (_ && _); [|lia].
+  destruct (nth_error ms _) as [m|] eqn:En; [|lia].
+  pose proof (ccnt_replace_nth u _ (without_touching m qubits) m ms En) as Hc.
+  pose proof (cnt_filter_le u (fun o => disjointb qubits (qs o)) m) as Hf. unfold without_touching in Hc.
+  match goal with |- (?R <= _)%nat => change (R + cnt u m = cnt u (filter (fun o => disjointb qubits (qs o)) m) + ccnt u ms)%nat in Hc;
+                                      remember R as R0 eqn:HR0 end. lia.
+Qed.
+
+Theorem clear_touching_cnt u c qubits idxs c' r : clear_touching c qubits idxs = (c', r) -> (ccnt u (moms c') <= ccnt u (moms c))%nat.
+Proof. unfold clear_touching. intros H. injection H as <- _. simpl. apply clear_fold_cnt. Qed.
+
+Lemma batch_insert_loop_cnt u gs : forall c shift c',
+  batch_insert_loop c shift gs = inl c' ->
+  ccnt u (moms c') = (ccnt u (moms c) + icnt u (concat (flat_map snd gs)))%nat.
+Proof.
+  induction gs as [|[i group] r IH]; intros c shift c' H; cbn [batch_insert_loop] in H.
+  - injection H as <-. simpl. rewrite icnt_nil. lia.
+  - match type of H with context [insert ?a ?b ?d ?s0] => destruct (insert a b d s0) as [c1 [z|er]] eqn:E end; [|discriminate].
+    apply IH in H. destruct (insert_cnt u _ _ _ _ _ _ E) as [_ [_ H3]]. specialize (H3 eq_refl).
+    rewrite icnt_concat_rev in H3. simpl. rewrite concat_app, icnt_app. lia.
+Qed.
+
+Lemma group_same_flat l : concat (flat_map snd (group_same l)) = flat_map snd l.
+Proof.
+  induction l as [|[i t] r IH]; simpl; [reflexivity|].
+  destruct (group_same r) as [|[j g] rest] eqn:E.
+  - simpl in *. rewrite <- IH. rewrite app_nil_r. reflexivity.
+  - destruct (Z.eqb i j); simpl in *; rewrite <- IH.
+    + reflexivity.
+    + reflexivity.
+Qed.
+
+Lemma sorted_insert_icnt u x l : icnt u (flat_map snd (sorted_insert x l)) = (icnt u (snd x) + icnt u (flat_map snd l))%nat.
+Proof.
+  induction l as [|y r IH]; simpl; [rewrite app_nil_r, icnt_nil; lia|].
+  destruct (fst x <? fst y); simpl; rewrite !icnt_app; [lia|]. rewrite IH. lia.
+Qed.
+
+Lemma stable_sort_icnt u l : icnt u (flat_map snd (stable_sort l)) = icnt u (flat_map snd l).
+Proof.
+  unfold stable_sort.
+  assert (G : forall acc, icnt u (flat_map snd (fold_left (fun acc x => sorted_insert x acc) l acc))
+                          = (icnt u (flat_map snd acc) + icnt u (flat_map snd l))%nat).
+  { induction l as [|x r IH]; intros acc; simpl; [change (icnt u []) with 0%nat; lia|].
+    rewrite IH, sorted_insert_icnt, icnt_app. lia. }
+  rewrite G. simpl. change (icnt u []) with 0%nat. lia.
+Qed.
+
+Theorem batch_insert_cnt u c ins c' z :
+  batch_insert c ins = (c', inl z) -> ccnt u (moms c') = (ccnt u (moms c) + icnt u (flat_map snd ins))%nat.
+Proof.
+  unfold batch_insert. intros H. destruct (batch_insert_loop _ _ _) as [c1|e] eqn:E; [|discriminate].
+  injection H as <- _. simpl. apply (batch_insert_loop_cnt u) in E. simpl in E.
+  rewrite group_same_flat, stable_sort_icnt in E. exact E.
+Qed.
+
+(* ==== the batch_* edits are all-or-nothing ==== *)
+Theorem batch_edits_atomic c :
+  (forall rs c' e, batch_remove c rs = (c', inr e) -> c' = c) /\
+  (forall rs c' e, batch_replace c rs = (c', inr e) -> c' = c) /\
+  (forall rs c' e, batch_insert_into c rs = (c', inr e) -> c' = c) /\
+  (forall ins c' e, batch_insert c ins = (c', inr e) -> c' = c).
+Proof.
+  repeat split; intros rs c' e H.
+  - unfold batch_remove, finish_batch in H. destruct (batch_remove_loop _ _); [discriminate|]. injection H as <- _. reflexivity.
+  - unfold batch_replace, finish_batch in H. destruct (batch_replace_loop _ _); [discriminate|]. injection H as <- _. reflexivity.
+  - unfold batch_insert_into, finish_batch in H. destruct (batch_insert_into_loop _ _); [discriminate|]. injection H as <- _. reflexivity.
+  - unfold batch_insert in H. destruct (batch_insert_loop _ _ _); [discriminate|]. injection H as <- _. reflexivity.
 Qed.
